@@ -362,7 +362,7 @@ ROUND5 = {
     "C04": " Round 5: action Refit(k) in the family-tree machine (new hyperparameter values for model k alone: HyperOwn; the variant in which a fantasy follows its source's later values is rejected), every model of the tree compared with a fresh model holding the values IT was given.",
     "C06": " Round 5: action Diag12(r) - the relation between x1 and x2 of a diagonal request (same object / equal clone / other rows / batch-broadcast) x request form (lazy, eager, .diagonal(), forward) on the stub and every zoo kernel (DiagRelCover, DiagRelDiscriminates; the x1 = x2 shortcut is rejected).",
     "C07": " Round 5: assemblies of a joint covariance - the joint over [x1; x2] put together from separately requested blocks, for equal and unequal block sizes, is THE Gram matrix of the stacked points (AssemblyOK: only equal block sizes expose a same-by-shape shortcut) and symmetric PSD for every kernel cell of the lattice. Round 6: the optional noise_indices argument of HeteroskedasticNoise is a dimension of the noise cells (single-output noise model; output 0 / output 1 of a two-output noise model as the noise level).",
-    "C12": " Round 5: likelihood batch shapes with a non-leading unit dimension in the quick lattice. Round 6: the form of an assignment - task_noises = v with v a float, a 0-d tensor, t, 1 x t, b x 1, b x t, for batch sizes equal to and different from the number of tasks; the documented value is the ASSIGNED value broadcast to b x t, compared with the getter and with the noise added to an interleaved distribution.",
+    "C12": " Round 5: likelihood batch shapes with a non-leading unit dimension in the quick lattice. Round 6: the form of an assignment - task_noises = v with v a float, a 0-d tensor, t, 1 x t, b x 1, b x t, for batch sizes equal to and different from the number of tasks; the documented value is the ASSIGNED value broadcast to b x t, compared with the getter and with the noise added to an interleaved distribution; the same for the global noise (noise = v, v a float / 0-d / 1 / b x 1).",
     "C13": " Round 5: part bigrules - rule sizes 48..128 given by constructor / setting / likelihood, float64 and float32, mean / sd cells, degree classes up to 2n-1 (BigRulesOK, BigNodesOK, BigCountOK; a rule keeping fewer nodes than requested is rejected), light replay against exact Gaussian moments.",
     "C14": " Round 5: part qu - class / conditioning of q(u) (near-prior, diagonal, dense, ill-conditioned) x number of inducing points below / above the Lanczos cap for every strategy x distribution (QuConverges, QuCover; the precision solve capped by the Lanczos setting is rejected), replayed at tight solver settings.",
     "C18": " Round 5: state_dict cells name their failure mode (raises-on-load / carrier missing from the state_dict / loads silently but differs), carrier kind npbuf (non-persistent buffer) and lazily registered persistent buffers with receiver histories fresh / called / used, a carrier inventory per cell, a mean-only observable, LoadDropsCaches. Round 6: deep-kernel families (learned feature map + the library's ScaleToBounds, whose running input range lives in buffers rewritten by training-mode calls and read in evaluation mode; with a dense kernel and with KISS-GP on the scaled features).",
